@@ -42,7 +42,9 @@ func (node *tagCycleNode) Execute(ctx *ExecutionContext, writer TemplateWriter) 
 		t.value = val
 
 		if !t.node.silent {
-			writer.WriteString(val.String())
+			if err := t.node.write(ctx, item, val, writer); err != nil {
+				return err
+			}
 		}
 	} else {
 		// Regular call
@@ -56,10 +58,26 @@ func (node *tagCycleNode) Execute(ctx *ExecutionContext, writer TemplateWriter) 
 			ctx.Private[node.asName] = cycleValue
 		}
 		if !node.silent {
-			writer.WriteString(val.String())
+			if err := node.write(ctx, item, val, writer); err != nil {
+				return err
+			}
 		}
 	}
 
+	return nil
+}
+
+// write prints the current value like a variable would: escaped while autoescape is on,
+// unless the argument is marked safe.
+func (node *tagCycleNode) write(ctx *ExecutionContext, item IEvaluator, val *Value, writer TemplateWriter) *Error {
+	if ctx.Autoescape && !item.FilterApplied("safe") && !val.safe {
+		escaped, err := ApplyFilter("escape", val, nil)
+		if err != nil {
+			return err
+		}
+		val = escaped
+	}
+	writer.WriteString(val.String())
 	return nil
 }
 
